@@ -251,12 +251,14 @@ def InFragmentX (ordf : List World → List World) (G : MG Name) (O C : Event) :
 
 /-- **IDC\* is sound on the exchange fragment — rule 2 of the do-calculus for functional SCMs.**  For every functional SCM `M`
 compatible with the (well-formed, loop-free) graph, with normalised noise and values bounded by `dom`, every base values `ν`
-under which the condition has POSITIVE probability: if `(outcomes, {X = x})` is in the exchange fragment and `idc_star` returns
-`e`, then `e` (read as in C07) EQUALS `P(outcomes ∧ X = x) / P(X = x)`.  No positivity of any kernel of `M` is assumed (the
+under which the condition has POSITIVE probability: if `(outcomes, {X = x})` is in the exchange fragment (rule 2 applies to `X`;
+every outcome descends from `X`, or none does) and `idc_star` returns `e`, then `e` (read as in C07) EQUALS
+`P(outcomes ∧ X = x) / P(X = x)`.  No positivity of any kernel of `M` is assumed (the
 quantifier of C08 is met as it stands): the exchange `P(y | x) = P(y_x)` is proved on the noise space
 (`Fscm.prob_exchange_marginal`: consistency + independence of disjoint noise coordinates), its graphical premise is read off the
 model's d-separation verdict on the counterfactual graph (`sep_facts_of_no_path`, `MG.no_ancAdj_path_of_dSeparated`), and
-`P(y_x)` is ID*'s answer by `idstar_sound_fragment` (C07). -/
+`P(y_x)` — which is `P(y)` when no outcome descends from `X` (`Fscm.solve_nondescendant`) — is ID*'s answer by
+`idstar_sound_fragment` (C07). -/
 theorem idcstar_sound_fragment_exchange (M : Model) (ν : BaseValues) (dom : Name → Nat) (hM : Compatible M G)
     (hnorm : M.Normalised) (hdom : ∀ v ps us, M.f v ps us < dom v) (hG : G.WF) (hdl : ∀ e ∈ G.di, e.1 ≠ e.2)
     (hbl : ∀ e ∈ G.bi, e.1 ≠ e.2) (hord : PermOrder ordf) (hdo : PermDistrict dordf)
@@ -274,41 +276,75 @@ theorem idcstar_sound_fragment_exchange (M : Model) (ν : BaseValues) (dom : Nam
   have hc : c = Var.plain c.name := hfrC.plain (c, val) (by simp)
   have hv : val = ⟨c.name, false⟩ := hfrC.unst (c, val) (by simp)
   have hcond : [(c, val)] = condOf c.name := by rw [hv]; unfold condOf; rw [← hc]
-  unfold exchangeB at hdyn
-  simp only [Bool.and_eq_true] at hdyn
-  obtain ⟨hd1, hd2⟩ := hdyn
   have hb : idcStarFuelBound G outcomes [(c, val)] = (2 * outcomes.length + G.nodes.length + 4) + 2 := by
     unfold idcStarFuelBound; simp only [List.length_cons, List.length_nil]; omega
   unfold idcStar at h
   rw [hb] at h
+  unfold exchangeB at hdyn
+  simp only at hdyn
+  rw [hc, hv] at hdyn
   rw [hcond] at h hfrC hpos ⊢
-  apply idcStarFuel_sound_fragX ordf dordf kordf G M ν dom hM (fun pmf hp => (hnorm pmf hp).2) hdom hG hdl hbl hord hdo
-    hfrC hOne ?_ ?_ _ e h (ne_of_gt hpos)
-  · intro cf nev hcg
-    rw [hcond] at hd1
-    rw [hcg] at hd1
-    simp only at hd1
+  -- what the dynamic test says, for whatever counterfactual graph line 2 returns
+  have hsplit : ∀ cf nev, makeCounterfactualGraph ordf G (outcomes ++ condOf c.name) = .ok (cf, some nev) →
+      (∃ c', firstExchangeable cf outcomes.keys (condOf c.name).keys = .ok (some c')) ∧
+      (exchangeAllB ordf G cf outcomes (Var.plain c.name) ⟨c.name, false⟩ = true ∨
+       exchangeNoneB cf outcomes (Var.plain c.name) = true) := by
+    intro cf nev hcg
+    rw [hcg] at hdyn
+    simp only at hdyn
     cases hfe : firstExchangeable cf outcomes.keys (condOf c.name).keys with
-    | error err => rw [hfe] at hd1; cases hd1
+    | error err => rw [hfe] at hdyn; cases hdyn
     | ok oc =>
-      rw [hfe] at hd1
+      rw [hfe] at hdyn
       cases oc with
-      | none => cases hd1
+      | none => cases hdyn
       | some c' =>
-        simp only at hd1
-        refine ⟨⟨c', rfl⟩, ?_⟩
-        rw [hc, hv] at hd1
-        cases hx : exchangeOutcomes cf outcomes (Var.plain c.name) ⟨c.name, false⟩ with
+        simp only [Bool.or_eq_true] at hdyn
+        exact ⟨⟨c', rfl⟩, hdyn⟩
+  -- which of the two cases: decided by the (unique) run of line 2
+  cases hcg0 : makeCounterfactualGraph ordf G (outcomes ++ condOf c.name) with
+  | error err =>
+    exfalso
+    unfoldIdc at h
+    rw [hfrC.ofList, hcg0] at h
+    cases h1 : line1 (idStar ordf dordf G (condOf c.name)) with
+    | error err => rw [h1] at h; cases h
+    | ok u => rw [h1] at h; cases h
+  | ok r =>
+    obtain ⟨cf0, o0⟩ := r
+    obtain ⟨nev0, rfl, _⟩ := frag_facts hord hG hdl hbl hfrC.frag (by simp) hcg0
+    rcases (hsplit cf0 nev0 hcg0).2 with hall | hnone
+    · -- every outcome descends from `X`
+      unfold exchangeAllB at hall
+      simp only [Bool.and_eq_true] at hall
+      obtain ⟨hd1, hd2⟩ := hall
+      apply idcStarFuel_sound_fragX ordf dordf kordf G M ν dom hM (fun pmf hp => (hnorm pmf hp).2) hdom hG hdl hbl hord hdo
+        hfrC hOne ?_ ?_ _ e h (ne_of_gt hpos)
+      · intro cf nev hcg
+        rw [hcg0] at hcg
+        simp only [Except.ok.injEq, Prod.mk.injEq, Option.some.injEq] at hcg
+        obtain ⟨rfl, rfl⟩ := hcg
+        refine ⟨(hsplit cf0 nev0 hcg0).1, ?_⟩
+        cases hx : exchangeOutcomes cf0 outcomes (Var.plain c.name) ⟨c.name, false⟩ with
         | error err => rw [hx] at hd1; cases hd1
         | ok no' =>
           rw [hx] at hd1
           simp only [decide_eq_true_eq] at hd1
           rw [hd1]
           rfl
-  · intro cf2 nev2 hcg2
-    rw [hcg2] at hd2
-    simp only [List.all_eq_true] at hd2
-    exact hd2
+      · intro cf2 nev2 hcg2
+        have hcg2' : makeCounterfactualGraph ordf G (exOut outcomes (Var.plain c.name).name) = .ok (cf2, some nev2) := hcg2
+        rw [hcg2'] at hd2
+        simp only [List.all_eq_true] at hd2
+        exact hd2
+    · -- no outcome descends from `X`
+      apply idcStarFuel_sound_fragX_none ordf dordf kordf G M ν dom hM (fun pmf hp => (hnorm pmf hp).2) hdom hG hdl hbl hord hdo
+        hfrC hOne ?_ _ e h (ne_of_gt hpos)
+      intro cf nev hcg
+      rw [hcg0] at hcg
+      simp only [Except.ok.injEq, Prod.mk.injEq, Option.some.injEq] at hcg
+      obtain ⟨rfl, rfl⟩ := hcg
+      exact ⟨(hsplit cf0 nev0 hcg0).1, hnone⟩
 
 /-! ## 3. vocabulary (C06, IDC* part) -/
 
@@ -351,6 +387,11 @@ example : inFragmentXB sortWorlds (MG.fromEdges [0, 1, 2] [(0, 1)] [(1, 2)])
     [(Var.plain 1, ⟨1, false⟩)] [(Var.plain 0, ⟨0, false⟩)] = true := by decide
 example : inFragmentXB sortWorlds (MG.fromEdges [0, 1, 2] [(0, 1), (1, 2)] [])
     [(Var.plain 1, ⟨1, false⟩), (Var.plain 2, ⟨2, false⟩)] [(Var.plain 0, ⟨0, false⟩)] = true := by decide
+/-- … and the case in which no outcome descends from the condition: two unrelated variables; `W → X`, `Z → Y` (W=2, Z=3) -/
+example : inFragmentXB sortWorlds (MG.fromEdges [0, 1] [] [])
+    [(Var.plain 1, ⟨1, false⟩)] [(Var.plain 0, ⟨0, false⟩)] = true := by decide
+example : inFragmentXB sortWorlds (MG.fromEdges [0, 1, 2, 3] [(2, 0), (3, 1)] [])
+    [(Var.plain 1, ⟨1, false⟩)] [(Var.plain 0, ⟨0, false⟩)] = true := by decide
 /-- … the bow graph `X → Y`, `X ↔ Y` is outside it (rule 2 does not apply: it is in `InFragmentC`), and so is a confounded
 `W → X`, `W → Y`, `X → Y` -/
 example : inFragmentXB sortWorlds (MG.fromEdges [0, 1] [(0, 1)] [(0, 1)])
